@@ -111,6 +111,28 @@ def job(args):
                                         {"setting": si, "labels": labels, "shape": shape, "to": tb, "via": mid})
     if kb_list != [U.KCAL_BASES[0]] or kform_list != [U.FORMS[0]]:
         return {"n": n, "v": vs, "outs": len(outs)}
+    # quantities that reach a form through an operation rather than the constructor: the total (sum / minimum / maximum over months)
+    # and the single month of a series must convert exactly like the same quantity written down directly
+    src_b = ("billion kcals", "thousand tons", "thousand tons")
+    series = mk(Food, tuple(b + " each month" for b in src_b), 3)
+    derived = [("get_nutrients_sum", series.get_nutrients_sum(), ""), ("get_min_all_months", series.get_min_all_months(), ""),
+               ("get_max_all_months", series.get_max_all_months(), ""), ("get_month(1)", series.get_month(1), " per month"), ("[1]", series[1], " per month")]
+    for how, q, form in derived:
+        direct = Food(float(q.kcals), float(q.fat), float(q.protein), *[b + form for b in src_b])
+        for tb in targets:
+            n += 1
+            rp = {"setting": si, "derived": how, "to": tb}
+            try:
+                a, b = q.in_units(*tb), direct.in_units(*tb)
+            except AssertionError as e:
+                bad("conversion_refused", "%s of a series -> %s refused: %r" % (how, tb, e), rp)
+                continue
+            want_labels = [x + form for x in tb]
+            if [a.kcals_units, a.fat_units, a.protein_units] != want_labels or a.units != want_labels or a.is_list_monthly():
+                bad("form_preserved", "%s of a series -> %s: labels %s / list %s / series=%s, the same quantity written down directly gives %s" % (
+                    how, tb, [a.kcals_units, a.fat_units, a.protein_units], a.units, a.is_list_monthly(), b.units), rp)
+            elif not all(np.allclose(x, y, rtol=1e-12, atol=0) for x, y in zip(vals_of(a), vals_of(b))):
+                bad("factor_kcals", "%s of a series -> %s: %s, the same quantity written down directly gives %s" % (how, tb, [v.tolist() for v in vals_of(a)], [v.tolist() for v in vals_of(b)]), rp)
     # anchors (once per setting)
     need = Food(kd * U.DAYS * pop / 1e9, fd * U.DAYS * pop / 1e9, pd * U.DAYS * pop / 1e9, "billion kcals per month", "thousand tons per month", "thousand tons per month")
     for name, fn, want in (("percent_fed", need.in_units_percent_fed, (100.0, 100.0, 100.0)),
@@ -220,6 +242,9 @@ def replay(rp):
             if k == len(hist) - 1:
                 vs = v
         return vs
+    if "derived" in rp:
+        r = job((rp["setting"], [U.FORMS[0]], [U.KCAL_BASES[0]]))
+        return [v for v in r["v"] if v["replay"].get("derived") == rp["derived"]] or r["v"]
     if "anchor" in rp:
         r = job((rp["setting"], [U.FORMS[0]], [U.KCAL_BASES[0]]))
         return r["v"]
